@@ -45,12 +45,20 @@ GainOKm(w, k, mue, muec, mk, base, logged) ==
       den == RSum([i \in 1..Len(ps) |-> J(ps[i][1], ps[i][2])], 1)
       num == RSum([i \in 1..Len(ps) |-> RMul(J(ps[i][1], ps[i][2]), RQ(mk[ps[i][1]][ps[i][2]]))], 1)
       act == {mk[pr[1]][pr[2]] : pr \in firing}
-      val == RVal(logged) IN
+      val == RVal(logged)
+      \* candidate rules: both sets active.  With a single candidate the weighted mean is that rule's consequent whatever
+      \* the size of its joint membership (which may be far below machine epsilon: no product is formed here); the joint
+      \* membership of two positive grades is positive for every operator except the bounded product max(0, a + b - 1)
+      cand == {pr \in (1..n) \X (1..n) : mue[pr[1]][1] > 0 /\ muec[pr[2]][1] > 0}
+      one == CHOOSE pr \in cand : TRUE
+      onePos == k # 3 \/ RLt(One, RAdd(RDy(mue[one[1]]), RDy(muec[one[2]]))) IN
   /\ logged[2] >= 0
   /\ \A i \in 1..n : mue[i][2] >= 0 /\ muec[i][2] >= 0                     \* memberships at the chosen points are exact dyadics
-  /\ (IF act = {} THEN NearW(w, logged, RQ(base))
-      ELSE /\ RLe(RSub(RQ(base + MinOf(act)), Tol), val) /\ RLe(val, RAdd(RQ(base + MaxOf(act)), Tol))
-           /\ (k \in 1..6 => NearW(w, logged, RAdd(RQ(base), RDiv(num, den)))))
+  /\ IF Cardinality(cand) = 1
+     THEN NearW(w, logged, RQ(IF onePos THEN base + mk[one[1]][one[2]] ELSE base))
+     ELSE (IF act = {} THEN NearW(w, logged, RQ(base))
+           ELSE /\ RLe(RSub(RQ(base + MinOf(act)), Tol), val) /\ RLe(val, RAdd(RQ(base + MaxOf(act)), Tol))
+                /\ (k \in 1..6 => NearW(w, logged, RAdd(RQ(base), RDiv(num, den)))))
 
 RECURSIVE StepsOK(_, _, _, _)
 StepsOK(e, i, preverr, k) ==
